@@ -66,7 +66,7 @@ def gen_st(rng):
     return lines
 
 
-def gen_mt(rng, scale=1.0):
+def gen_mt(rng, scale=1.0, rlog_p=0.30):
     pol = rng.choice(MT_POL)
     nt = rng.choice([2, 2, 3, 4, 4, 6, 8])
     small = pol == "small"
@@ -75,12 +75,12 @@ def gen_mt(rng, scale=1.0):
     lines = ["mt %s %d" % (pol, nt)]
     for _ in range(rng.choice([1, 2, 3])):
         k = rng.random()
-        if k < 0.30:
+        if k < rlog_p:              # replay-logged variant of mix (not scaled: the replay cost is linear in the number of calls)
             m = rng.choice([1, 2, 3, 6])
             sizes = [rng.choice(cls) - rng.choice([0, 0, 1, 3]) for _ in range(m)]
             if rng.random() < 0.3:
                 sizes.append(big + 1 + rng.randrange(100000))
-            lines.append("rlog %d %d %d %s" % (int(rng.choice([800, 2000, 4000]) * scale), rng.randrange(1, 10**6),
+            lines.append("rlog %d %d %d %s" % (rng.choice([800, 2000, 4000]), rng.randrange(1, 10**6),
                                               rng.choice([0, 30, 60, 90]), " ".join(str(max(s, 0)) for s in sizes)))
         elif k < 0.45:
             m = rng.choice([1, 2, 3, 6])
